@@ -221,6 +221,8 @@ type EnvNested struct {
 	MC  EnvMethClash
 	U   EnvUnexported
 	Fn  EnvFuncs
+	PFn *EnvFuncs // function-typed fields behind a pointer: PFn.F(1)
+	Sg  ZStringer // a non-empty interface: Sg.String() has no receiver parameter
 }
 
 // recursive type
@@ -274,6 +276,9 @@ type EnvScalars struct {
 	Fy   func(...interface{}) int         // variadic over interface{}, but not fast (result type)
 	Fn   func()                           // no result
 	F2   func() (int, int)                // two results
+	PPSt **ZA                             // two pointer levels
+	Sg   ZStringer                        // a non-empty interface ...
+	Zs   zstr                             // ... and a type implementing it (assignable one way only)
 }
 
 func (EnvScalars) Mi(a int, b string) int           { return a + len(b) }
@@ -325,13 +330,18 @@ func zooSpecial(v reflect.Value) {
 }
 
 // zooEnvs lists the environments: every struct shape by value and by pointer, then the maps.
-func zooEnvs(rng *rand.Rand, nRandom int) []zooEnv {
-	var out []zooEnv
-	shapes := []interface{}{
+// zooShapes: the declared struct environments (each is used by value and by pointer)
+func zooShapes() []interface{} {
+	return []interface{}{
 		EnvShadowBefore{}, EnvShadowAfter{}, EnvAmbig{}, EnvDepth{}, EnvDepthRev{}, EnvDepth3{}, EnvAmbigDeep{},
 		EnvPtrEmb{}, EnvNameClashA{}, EnvNameClashB{}, EnvUnexported{}, EnvEmbScalar{}, EnvMeth{}, EnvPromV{}, EnvPromP{},
 		EnvMethClash{}, EnvMethVsField{}, EnvMethShadowsField{}, EnvEmbIface{}, EnvFuncs{}, EnvNested{}, EnvRec{}, EnvScalars{},
 	}
+}
+
+func zooEnvs(rng *rand.Rand, nRandom int) []zooEnv {
+	var out []zooEnv
+	shapes := zooShapes()
 	for _, s := range shapes {
 		n := reflect.TypeOf(s).Name()
 		out = append(out, zooEnv{n, popIface(s)})
